@@ -529,3 +529,23 @@ M("m97j", "C16", "R16.6", HENDRIX, "        pa = scipy.stats.poisson.pmf(\n     
 B("b33", ["C16"], DEMOOR, "        alpha = 1 / (cov**2)\n        beta = 1 / (mean * cov**2)", "        alpha = cov**-2\n        beta = alpha / mean", "parameters written differently")
 B("b34", ["C16"], MIRJ, "        self.weekday_demand_negbin_p = self.weekday_demand_negbin_n / (\n            self.weekday_demand_negbin_delta + self.weekday_demand_negbin_n\n        )",
   "        self.weekday_demand_negbin_p = self.weekday_demand_negbin_n / (\n            self.weekday_demand_negbin_n + self.weekday_demand_negbin_delta\n        )", "sum commuted")
+
+# =============================================================================== C13
+M("m86", "C13", "R13.1", DEMOOR, "        demand_probabilities = demand_probabilities.at[-1].add(\n            1 - demand_probabilities.sum()\n        )\n", "",
+  "De Moor: tail folding deleted (sums to cdf(D+0.5) < 1; the default max_demand=100 hides it)")
+M("m87", "C13", "R13.1", MIRJ, "        demand_probs = demand_probs.at[self.max_demand].add(1 - jnp.sum(demand_probs))\n", "", "Mirjalili: tail folding deleted")
+M("m87b", "C13", "R13.2", MIRJ, "        demand_probs = demand_probs.at[self.max_demand].add(1 - jnp.sum(demand_probs))", "        demand_probs = demand_probs.at[self.max_demand + 1].add(1 - jnp.sum(demand_probs))",
+  "Mirjalili: tail folded into an out-of-range index (silently dropped by JAX)")
+M("m88c", "C13", "R13.2", DEMOOR, "            jnp.hstack([0, jnp.arange(0.5, self.max_demand + 1.5)])", "            jnp.hstack([0, jnp.arange(0.5, self.max_demand + 0.5)])",
+  "De Moor: table one entry shorter than the event space (clamped gather repeats the last bin)")
+M("m88d", "C13", "R13.3", MIRJ, "            rec_combinations.sum(axis=1) <= self.max_order_quantity\n        ]", "            rec_combinations.sum(axis=1) < self.max_order_quantity\n        ]",
+  "Mirjalili: splits of a full order are missing from the event space (orders of max_order_quantity lose all mass)")
+M("m88e", "C13", "R13.3", MIRJ, "            received_order.sum() == action,", "            received_order.sum() <= action,", "Mirjalili: mass outside the multinomial support", survives="no")
+M("m88f", "C13", "R13.1", HENDRIX, "        prob_combined_demand_gteq_stock_a = probs_issued_a.dot(\n            jnp.arange(len(probs_issued_a)) >= stock_a\n        )",
+  "        prob_combined_demand_gteq_stock_a = probs_issued_a.dot(\n            jnp.arange(len(probs_issued_a)) > stock_a\n        )", "Hendrix case 4: > instead of >= loses the mass at z == stock_a")
+M("m88g", "C13", "R13.4", FOREST, "        self._probability_matrix = jnp.array([[1 - self.p, self.p], [1, 0]])", "        self._probability_matrix = jnp.array([[1 - self.p, self.p], [1, self.p]])",
+  "Forest: cut row sums to 1 + p", survives="no")
+M("m88h", "C13", "R13.1", DEMOOR, "        return self.demand_probabilities[random_event]", "        return jax.scipy.stats.poisson.pmf(random_event, self.demand_gamma_mean)",
+  "a new, untriaged distribution call site", survives="no")
+B("b35", ["C13", "C16"], DEMOOR, "        demand_probabilities = demand_probabilities.at[-1].add(\n            1 - demand_probabilities.sum()\n        )",
+  "        demand_probabilities = demand_probabilities.at[-1].add(\n            1.0 - jnp.sum(demand_probabilities)\n        )", "sum spelled as a function")
